@@ -8,9 +8,11 @@ with the value of the joining pixel.  The negation is proved here by concrete wi
 on the implementation by the check); what *is* true is stated as far as it is proved:
 * the compute-time test is literally `ruleOrig` (the post-hoc rule with the original merge level);
 * for `min_npix` the two phases apply the same test.
-The full statement `hier (prune with ruleOrig) = hier (compute strictly)` and the `min_npix`-only
-statement for the code as it is are checked by the correspondence run only (not proved): see
-DESIGN.md §5 C08.
+* **for `min_npix` (with `min_delta = 0` throughout) the property holds of the code as it is, for
+  every input — `C08_npix`**: pruning afterwards with a stricter `min_npix` yields the same
+  hierarchy as computing with it directly.
+The full statement with `min_delta` under the original-merge-level rule (`ruleOrig`) is checked by
+the correspondence run only (it serves as arbiter for classifying K1), not proved.
 -/
 open Tree
 
@@ -45,6 +47,19 @@ theorem C08_ruleOrig_eq_computeTime (val : Nat → Int) (tbl : List (Nat × Int)
     (h : lookupLevel tbl t.id = some lv) :
     (Crit.minDelta d).childOrig val tbl parent t = (Crit.minDelta d).atMerge val t lv := by
   simp [Crit.childOrig, Crit.atMerge, h]
+
+/-- **C08 (holds for `min_npix`).** For every value assignment (ties allowed), every adjacency, every
+non-increasing duplicate-free processing order and all `n0 ≤ n1`: computing with `min_npix = n0`
+and then pruning with `min_npix = n1` gives the same hierarchy (same regions, same parent
+relation; `P10.SimL id` ignores identifiers, child order and own-pixel order) as computing with
+`min_npix = n1` directly, `min_delta` being 0 throughout. -/
+theorem C08_npix (val : Nat → Int) (nbrs : Nat → List Nat) (order : List Nat) (n0 n1 : Nat)
+    (hnd : order.Nodup) (hsorted : order.Pairwise (fun a b => val b ≤ val a)) (h01 : n0 ≤ n1) :
+    P10.SimL (fun p => p)
+      (prune (allChild val [Crit.minDelta 0, Crit.minNpix n1]) (allOrphan val [Crit.minDelta 0, Crit.minNpix n1])
+        (makeTrunk (envOf val nbrs [Crit.minDelta 0, Crit.minNpix n0]) (run (envOf val nbrs [Crit.minDelta 0, Crit.minNpix n0]) order)))
+      (makeTrunk (envOf val nbrs [Crit.minDelta 0, Crit.minNpix n1]) (run (envOf val nbrs [Crit.minDelta 0, Crit.minNpix n1]) order)) :=
+  P18.prune_eq_compute_npix val nbrs order n0 n1 hnd hsorted h01
 
 /-- **C08 (`min_npix` is the same test in both phases).** -/
 theorem C08_npix_same_test (val : Nat → Int) (n : Nat) (parent t : Tree) (v : Int) :
